@@ -106,7 +106,8 @@ Definition simulate (c : cfg) (ks : list (N * N * N)) (rs js : list N) : st * bo
   run_loop c (Pos.of_succ_nat (17 * length ks)) (add_kicks c (init rs js) 0 ks).
 
 (* ---- wire format ----
-   seed k (lat jit)*k nk (time dst ttl)*nk rounds d  nr r*  nj j*
+   seed k (lat jit)*k nk (time dst ttl)*nk rounds d ntasks restarts  nr r*  nj j*
+   (rounds, d, ntasks, restarts configure the racing tasks, which only the 3-run comparison observes)
    output: 1 1 n (m now ttl token r jit)*n   -- the two leading ones are the
    reproducibility flags the implementation reports (the model is a function). *)
 Fixpoint take_pairs (k : nat) (l : list N) : list (N * N) * list N :=
@@ -137,7 +138,7 @@ Definition run_with (mid : N -> N) (input : list N) : list N :=
       match r1 with
       | nk :: r2 =>
           let '(ks, r3) := take_triples (N.to_nat nk) r2 in
-          let r4 := match r3 with _ :: _ :: r => r | _ => [] end in
+          let r4 := match r3 with _ :: _ :: _ :: _ :: r => r | _ => [] end in
           let '(rs, r5) := take_lp r4 in
           let '(js, _) := take_lp r5 in
           let c := {| c_k := k; c_lat := map fst lj; c_jit := map snd lj; c_mid := mid |} in
